@@ -15,10 +15,12 @@
 package main
 
 import (
+	"bufio"
 	"bytes"
 	"encoding/hex"
 	"encoding/json"
 	"fmt"
+	"io"
 	"os"
 	"os/exec"
 	"path/filepath"
@@ -27,6 +29,7 @@ import (
 	"strings"
 	"sync"
 	"syscall"
+	"time"
 
 	"ssvharness/internal/common"
 
@@ -154,6 +157,12 @@ func runChildIn(dir, path string, pskLen int, ch Change, mode string, limit int6
 			rm.childErr = "child stage " + rm.res.Stage + ": " + rm.res.Err
 		}
 	}
+	collectRemains(dir, path, &rm)
+	return rm
+}
+
+// collectRemains reads what a server life left in the store's directory.
+func collectRemains(dir, path string, rm *remains) {
 	if fi, err := os.Lstat(path); err == nil {
 		rm.isLink = fi.Mode()&os.ModeSymlink != 0
 	}
@@ -179,7 +188,6 @@ func runChildIn(dir, path string, pskLen int, ch Change, mode string, limit int6
 		rm.dest, rm.hasDest = b, true
 	}
 	sort.Strings(rm.tmps)
-	return rm
 }
 
 // runSaveCase runs a case (one or two server lives) in a fresh directory.
@@ -593,6 +601,279 @@ func enginePersist(base string, o *common.Options, rep *common.Report) error {
 	return nil
 }
 
+// ---------- engine syscall: a real crash at every system-call boundary of a save ----------
+
+// SysCase: the server is killed (SIGKILL injected by strace at the ENTRY of the When-th invocation of
+// Syscall after the store was loaded, i.e. right after the previous call completed) during the automatic save.
+type SysCase struct {
+	Engine   string `json:"engine"` // "syscall"
+	Users    []User `json:"users"`
+	PskLen   int    `json:"psk_len"`
+	Change   Change `json:"change"`
+	Kind     string `json:"kind"`
+	Leftover string `json:"leftover"`
+	Syscall  string `json:"syscall"`
+	When     int    `json:"when"`
+}
+
+var saveSyscalls = []string{"openat", "write", "fchmod", "fsync", "close", "renameat", "unlinkat", "newfstatat"}
+
+// runSysCase: child loads the store and waits; strace attaches with the injection; the child is released.
+func runSysCase(base string, idx int, c SysCase) (rm remains) {
+	dir := filepath.Join(base, fmt.Sprintf("y%d", idx))
+	if err := os.MkdirAll(dir, 0o755); err != nil {
+		rm.childErr = err.Error()
+		return
+	}
+	defer os.RemoveAll(dir)
+	path, err := setupStore(dir, SaveCase{Users: c.Users, Kind: c.Kind, Leftover: c.Leftover})
+	if err != nil {
+		rm.childErr = err.Error()
+		return
+	}
+	spec, _ := json.Marshal(SaveSpec{Path: path, PskLen: c.PskLen, Change: c.Change, Mode: "efbig", Limit: -1, Ready: true})
+	cmd := exec.Command(selfExe(), "child-save")
+	cmd.Env = append(os.Environ(), "C20_SPEC="+string(spec), "GOMAXPROCS=2")
+	stdin, _ := cmd.StdinPipe()
+	stdout, _ := cmd.StdoutPipe()
+	var errb bytes.Buffer
+	cmd.Stderr = &errb
+	if err := cmd.Start(); err != nil {
+		rm.childErr = err.Error()
+		return
+	}
+	rd := bufio.NewReader(stdout)
+	line, err := rd.ReadString('\n')
+	if err != nil || strings.TrimSpace(line) != "ready" {
+		cmd.Process.Kill()
+		cmd.Wait()
+		rm.childErr = "child not ready: " + line + tail(errb.String())
+		return
+	}
+	var tracer *exec.Cmd
+	if c.Syscall != "" {
+		tracer = exec.Command("strace", "-f", "-o", "/dev/null", "-e", "trace="+c.Syscall,
+			"-e", fmt.Sprintf("inject=%s:signal=SIGKILL:when=%d", c.Syscall, c.When), "-p", fmt.Sprint(cmd.Process.Pid))
+		tr, _ := tracer.StderrPipe()
+		if err := tracer.Start(); err != nil {
+			cmd.Process.Kill()
+			cmd.Wait()
+			rm.childErr = "strace: " + err.Error()
+			return
+		}
+		// wait until every thread is attached: "attached" lines, then silence
+		lines := make(chan string, 64)
+		go func() {
+			sc := bufio.NewScanner(tr)
+			for sc.Scan() {
+				lines <- sc.Text()
+			}
+			close(lines)
+		}()
+		attached := false
+	wait:
+		for {
+			select {
+			case l, ok := <-lines:
+				if !ok {
+					break wait
+				}
+				if strings.Contains(l, "attached") {
+					attached = true
+				}
+			case <-time.After(150 * time.Millisecond):
+				if attached {
+					break wait
+				}
+			case <-time.After(10 * time.Second):
+				break wait
+			}
+		}
+		go func() {
+			for range lines {
+			}
+		}()
+		if !attached {
+			cmd.Process.Kill()
+			cmd.Wait()
+			tracer.Process.Kill()
+			tracer.Wait()
+			rm.childErr = "strace did not attach"
+			return
+		}
+	}
+	stdin.Write([]byte("\n"))
+	rest, _ := io.ReadAll(rd)
+	err = cmd.Wait()
+	if tracer != nil {
+		done := make(chan struct{})
+		go func() { tracer.Wait(); close(done) }()
+		select {
+		case <-done:
+		case <-time.After(5 * time.Second):
+			tracer.Process.Kill()
+			<-done
+		}
+	}
+	rm.status = "exit"
+	if ee, ok := err.(*exec.ExitError); ok {
+		if ws, ok := ee.Sys().(syscall.WaitStatus); ok && ws.Signaled() {
+			rm.status = "killed:" + ws.Signal().String()
+		} else {
+			rm.childErr = fmt.Sprintf("child exit %v: %s", err, tail(errb.String()))
+		}
+	} else if err != nil {
+		rm.childErr = err.Error()
+	} else if e := json.Unmarshal(bytes.TrimSpace(rest), &rm.res); e != nil || rm.res.Stage != "done" {
+		rm.childErr = "child output: " + tail(string(rest)+errb.String())
+	}
+	collectRemains(dir, path, &rm)
+	return
+}
+
+func killLine(rm remains) string {
+	l := remainsLine(rm, 0)
+	return strings.Replace(l, " err=0", "", 1)
+}
+
+// evalSysGroup: for one (store, change, environment) kill the server before the N-th call of every kind,
+// N = 1, 2, … until the save completes untouched.
+func evalSysGroup(base string, users []User, pskLen int, ch Change, kind, leftover string, only *SysCase, o *common.Options, rep *common.Report, idx *int) error {
+	type job struct {
+		c  SysCase
+		rm remains
+	}
+	var jobs []*job
+	maxWhen := 8
+	start := *idx
+	*idx += len(saveSyscalls)*maxWhen + 1
+	if only != nil {
+		j := &job{c: *only}
+		j.rm = runSysCase(base, start, j.c)
+		jobs = append(jobs, j)
+	} else {
+		// one chain per call kind, in parallel: N = 1, 2, … until the save completes without the kill firing
+		chains := make([][]*job, len(saveSyscalls))
+		parallel(len(saveSyscalls), func(k int) {
+			for n := 1; n <= maxWhen; n++ {
+				j := &job{c: SysCase{Engine: "syscall", Users: users, PskLen: pskLen, Change: ch, Kind: kind, Leftover: leftover, Syscall: saveSyscalls[k], When: n}}
+				j.rm = runSysCase(base, start+k*maxWhen+n, j.c)
+				if j.rm.childErr != "" {
+					j.rm = runSysCase(base, start+k*maxWhen+n, j.c)
+				}
+				chains[k] = append(chains[k], j)
+				if !strings.HasPrefix(j.rm.status, "killed:") {
+					break
+				}
+			}
+		})
+		for _, c := range chains {
+			jobs = append(jobs, c...)
+		}
+	}
+	oldDoc := docOf(users)
+	newUsers := applyTo(users, ch)
+	newDoc := docOf(newUsers)
+	allowed := map[string]bool{}
+	haveModel := false
+	if o.Driver != "" {
+		out, err := common.RunDriverOnce(o.Driver, []string{fmt.Sprintf("killpoints %s %s %s %s %s", hexField(oldDoc), hexField(newDoc), modelKind(kind), leftoverOr(leftover), hexField(leftoverContent))})
+		if err != nil {
+			return err
+		}
+		if !strings.HasPrefix(out[0], "gen-undecodable") && !strings.HasPrefix(out[0], "bad-op") {
+			haveModel = true
+			for _, l := range strings.Split(out[0], " | ") {
+				allowed[l] = true
+			}
+		}
+	}
+	oldSet, newSet := canonUsers(users), canonUsers(newUsers)
+	for i, j := range jobs {
+		c, rm := j.c, j.rm
+		killed := strings.HasPrefix(rm.status, "killed:")
+		rep.Case(fmt.Sprintf("syscall|%s|%s|%s|%v|%s|%d", c.Kind, c.Leftover, canonUsers(c.Users), c.Change, c.Syscall, c.When), killed)
+		if rm.childErr != "" {
+			rep.Diverge(common.Divergence{Engine: "syscall", Case: c, Impl: rm.childErr, Model: "", Note: "traced child failed"})
+			continue
+		}
+		if killed {
+			rep.Count("syscall:killed-before=" + c.Syscall)
+		} else {
+			rep.Count("syscall:completed")
+		}
+		set, lerr := loadReal(base, start+i, rm.target, rm.present, c.PskLen)
+		verdict := "other"
+		switch {
+		case lerr != nil && !rm.present:
+			verdict = "absent"
+		case lerr != nil:
+			verdict = "error"
+		case set == oldSet:
+			verdict = "old"
+		case set == newSet:
+			verdict = "new"
+		case set == "":
+			verdict = "empty"
+		}
+		rep.Count("syscall:loader=" + verdict)
+		line := killLine(rm)
+		if i < 2 {
+			rep.Sample(map[string]any{"case": c, "remains": line, "loader": verdict, "child": rm.status})
+		}
+		if haveModel && bytes.Equal(newDoc, rm.target) == (verdict == "new") {
+			// the model's kill states (kill after any statement of the regenerated program) must contain what is on disk
+			if !allowed[line] {
+				rep.Diverge(common.Divergence{Engine: "syscall", Case: c, Impl: line, Model: "one of: " + strings.Join(sortedKeys(allowed), " | "), Note: "remains after a kill between two system calls are not a kill state of the model"})
+			}
+			rep.TracesValidated++
+		}
+		if verdict != "old" && verdict != "new" && !(verdict == "empty" && (oldSet == "" || newSet == "")) {
+			failOnce(rep, common.OracleFailure{Engine: "syscall", Key: "store-missing-or-unloadable-after-crash-between-calls", Case: c,
+				Detail: fmt.Sprintf("%s; store of %d users, %s %q acknowledged, server killed at the entry of %s call no. %d after the store was loaded: start-up loader: %s (%v); directory now: %s; expected the old or the new user set",
+					envText(SaveCase{Kind: c.Kind, Leftover: c.Leftover}), len(c.Users), c.Change.Op, c.Change.Name, c.Syscall, c.When, verdict, lerr, line)})
+		}
+		if !killed && verdict != "new" && oldSet != newSet {
+			failOnce(rep, common.OracleFailure{Engine: "syscall", Key: "save-without-fault-not-written", Case: c,
+				Detail: fmt.Sprintf("traced run completed without injection firing but the loader sees %s", verdict)})
+		}
+	}
+	return nil
+}
+
+func sortedKeys(m map[string]bool) []string {
+	var ks []string
+	for k := range m {
+		ks = append(ks, k)
+	}
+	sort.Strings(ks)
+	return ks
+}
+
+func engineSyscall(base string, o *common.Options, rep *common.Report) error {
+	if _, err := exec.LookPath("strace"); err != nil {
+		rep.Note("engine syscall skipped: strace not found")
+		return nil
+	}
+	r := common.NewRng(o.Seed ^ 0x5ca11)
+	groups := 1
+	if o.Thorough() || o.Search {
+		groups = 4
+	}
+	idx := 0
+	for g := 0; g < groups; g++ {
+		rr := r.Fork(uint64(g))
+		n := 1 + (g+int(o.Seed))%3
+		users := genStore(rr, n, 16)
+		ch := genChange(rr, users, []string{"add", "upd", "del"}[(g+int(o.Seed))%3], 16)
+		env := envTable[(g+int(o.Seed))%len(envTable)]
+		if err := evalSysGroup(base, users, 16, ch, env[0], env[1], nil, o, rep, &idx); err != nil {
+			return err
+		}
+	}
+	return nil
+}
+
 // ---------- engine stop ----------
 
 type stopJob struct {
@@ -864,7 +1145,7 @@ func main() {
 	}
 	o := common.ParseFlags()
 	rep := common.NewReport("C20", o)
-	rep.Engines = []string{"persist", "history", "stop"}
+	rep.Engines = []string{"persist", "history", "syscall", "stop"}
 	rep.Rule = "engine persist: stores of 0..N users (N=3 quick, 6 thorough with two stores per size and 16/32-byte keys; names with JSON-special characters) x one API change (add/delete/update) x RLIMIT_FSIZE = every byte count 0..len(new document) x {process killed by SIGXFSZ, write returns EFBIG}, each in its own child process running the real cred.Manager, in rotating environments of the store path (regular file / symlink to a file in the same / another directory; stray <store>.tmp or <store>.<digits>.tmp next to it); " +
 		"engine history: the same cut save, then the server restarts on the remains, one more change is acknowledged, graceful Stop, restart (every byte count for stores of 0..1 users, every 8th otherwise); " +
 		"non-trivial = the limit cuts the document; distinct by (store, change, mode, limit). engine stop: shutdown scripts over {change, Wait, cool-down, cancel, Stop} under testing/synctest, repeated (select is random), GOMAXPROCS 1 and all cores; non-trivial = at least one change acknowledged before the cancellation"
@@ -875,6 +1156,9 @@ func main() {
 			err = replay(base, o, rep)
 		} else {
 			if err = enginePersist(base, o, rep); err == nil {
+				err = engineSyscall(base, o, rep)
+			}
+			if err == nil {
 				err = engineStop(base, o, rep)
 			}
 		}
@@ -900,6 +1184,14 @@ func replay(base string, o *common.Options, rep *common.Report) error {
 	}
 	if err := common.LoadReplay(o.Replay, &probe); err != nil {
 		return err
+	}
+	if probe.Engine == "syscall" {
+		var c SysCase
+		if err := common.LoadReplay(o.Replay, &c); err != nil {
+			return err
+		}
+		idx := 0
+		return evalSysGroup(base, c.Users, c.PskLen, c.Change, c.Kind, c.Leftover, &c, o, rep, &idx)
 	}
 	if len(probe.Tokens) > 0 {
 		var c StopCase
